@@ -112,6 +112,10 @@ func (c *Ctx) instrs(fn *ssa.Function, p InstrPred) []ssa.Instruction {
 	}
 	if fn != nil {
 		visit(fn)
+		// helpers extracted from fn (functions not in the frozen list) are searched as part of fn
+		for _, h := range c.newCallees(fn) {
+			visit(h)
+		}
 	} else {
 		for _, f := range c.Funcs {
 			visit(f)
